@@ -491,6 +491,15 @@ impl Ctx {
         } else {
             op
         };
+        // a source iterator that PANICS at one of its `next()` calls (honest size hint), now and then
+        let op = match &op {
+            Op::Splice(_, _, ids, _, _, None) | Op::ExtendIter(ids, _, None) if self.rng.chance(1, 4) => {
+                let k = self.rng.below(ids.len() as u64 + 1) as u8;
+                self.count(if matches!(op, Op::Splice(..)) { "route:splice, the source panics" } else { "route:extend, the source panics" });
+                Op::Alt(100 + k, Box::new(op))
+            }
+            _ => op,
+        };
         // a draining / extracting iterator that is LEAKED (`mem::forget`) instead of dropped, now and then
         let op = if matches!(op, Op::Drain(..) | Op::ExtractIf(_)) && self.rng.chance(1, 4) {
             self.count(if matches!(op, Op::Drain(..)) { "route:drain, iterator leaked" } else { "route:extract_if, iterator leaked" });
@@ -603,6 +612,7 @@ impl Ctx {
             };
             let used_n = used();
             clear_oracle();
+            set_src_panic_at(None);
             let iargs = take_args();
             let observed = take_observed();
             let exit = match &r {
@@ -852,6 +862,14 @@ impl Ctx {
                             // C07: a failed (here: capacity overflow inside `Splice::drop`) operation leaves valid contents
                             self.oracle("C07", format!("{} `{optext}` from ids={}: the call unwound with a capacity overflow and left ids={} — an element was duplicated or lost (expected head ++ what was written ++ tail)", spec.kind.tok(), csv(&pre), csv(&post)));
                             self.oracle("C08", format!("{} `{optext}` from ids={}: after the panic the vector is ids={}, not head ++ prefix of the source ++ tail", spec.kind.tok(), csv(&pre), csv(&post)));
+                        }
+                    }
+                    Ok((ret, _)) if matches!(&step.op, Op::Alt(k, _) if *k >= 100) => {
+                        // the source panicked (or ran dry before it would have): std under catch_unwind is the reference
+                        let std_panicked = ret.starts_with('!');
+                        let want_exit = if std_panicked { "panic".to_string() } else if ret.is_empty() { "ret".to_string() } else { format!("ret:{ret}") };
+                        if !zst && (post != sv || exit != want_exit) {
+                            self.oracle("C08", format!("{} `{optext}` from ids={}: std::vec::Vec gives ids={} {want_exit}, the implementation ids={} {exit}", spec.kind.tok(), csv(&pre), csv(&sv), csv(&post)));
                         }
                     }
                     Ok((ret, consumed)) => {
